@@ -154,7 +154,7 @@ def rand_vals(rng, n, dtype):
 def make_elem(space, vals, layout, rng):
     """Element of `space` with the given flat (C-order) values and memory layout."""
     shape = space.shape
-    arr = np.asarray(vals, dtype=space.dtype).reshape(shape)
+    arr = np.array(vals, dtype=space.dtype).reshape(shape)   # always a private copy
     if layout == 'mixed':
         layout = rng.choice(['C', 'F'])
     if layout == 'C':
@@ -274,7 +274,20 @@ def run_lincomb_case(c, small, medium):
     if ids[2] not in ids[:2] and not np.issubdtype(dtype, np.integer):
         out.data[...] = np.nan  # previous contents of a non-aliased output must not matter
         nan_out = True
+    poisoned = False
+    if c['ca'] == '0' and c['cb'] == '0' and not np.issubdtype(dtype, np.integer) \
+            and c['vseed'] % 2 == 0:
+        # a = b = 0: the result is exactly zero whatever the operands hold, also NaN/inf
+        # (x.set_zero() relies on it). The model is sent the finite values.
+        poisoned = True
+        for bid in elems:
+            flatv = elems[bid].data.reshape(-1) if elems[bid].data.flags.c_contiguous else None
+            idx = tuple(0 for _ in elems[bid].data.shape)
+            elems[bid].data[idx] = np.nan
+            last = tuple(s - 1 for s in elems[bid].data.shape)
+            elems[bid].data[last] = np.inf
     pre = {bid: wide(vals[bid]) for bid in elems}
+    pre_raw = {bid: wide(elems[bid].data) for bid in elems}
     blas_ok = all(e.data.flags.c_contiguous for e in elems.values()) or \
         all(e.data.flags.f_contiguous for e in elems.values())
     blas_ok = blas_ok and dtype in (np.dtype('float32'), np.dtype('float64'),
@@ -314,9 +327,16 @@ def run_lincomb_case(c, small, medium):
                             .format(len(bad), int(bad[0]), post[ids[2]][bad[0]],
                                     exp_out[bad[0]]))
         for bid in elems:
-            if bid != ids[2] and not np.array_equal(post[bid], pre[bid]):
+            if bid != ids[2] and not np.array_equal(post[bid], pre_raw[bid], equal_nan=True):
                 problems.append('operand buffer {} modified'.format(bid))
-    nontrivial = bool(np.any(exp_out != 0))
+    if poisoned:
+        c['poisoned'] = True
+        # for the correspondence the non-output buffers are compared on the finite values
+        for bid in elems:
+            if bid != ids[2]:
+                post[bid] = pre[bid] if np.array_equal(post[bid], pre_raw[bid], equal_nan=True) \
+                    else post[bid]
+    nontrivial = bool(np.any(exp_out != 0)) or poisoned
     return line, status, post, problems, nontrivial
 
 
